@@ -50,4 +50,10 @@ var props = map[string]propCfg{
 	"C08": one(part{Pkg: "./props/static", Test: "TestC08",
 		Quick:    tierCfg{Cases: 64, Shards: 8, Timeout: 10 * min, ShrinkTime: 30 * sec},
 		Thorough: tierCfg{Cases: 1200, Shards: 14, Timeout: 60 * min, ShrinkTime: 5 * min}}),
+	"C10": one(part{Pkg: "./props/static", Test: "TestC10",
+		Quick:    tierCfg{Cases: 120, Shards: 8, Timeout: 10 * min, ShrinkTime: 30 * sec},
+		Thorough: tierCfg{Cases: 3000, Shards: 14, Timeout: 60 * min, ShrinkTime: 5 * min}}),
+	"C18": one(part{Pkg: "./props/static", Test: "TestC18",
+		Quick:    tierCfg{Cases: 120, Shards: 8, Timeout: 10 * min, ShrinkTime: 30 * sec},
+		Thorough: tierCfg{Cases: 3000, Shards: 14, Timeout: 60 * min, ShrinkTime: 5 * min}}),
 }
